@@ -185,7 +185,7 @@ def scan_case():
       'mutable': st.lists(st.sampled_from(STATE), max_size=2, unique=True),
       'seed': st.integers(0, 2**16), 'remat_scan': st.just(False),
       # nn.scan(Cell, ...) or @functools.partial(nn.scan, ...) on __call__
-      'form': st.sampled_from(['class', 'class', 'method']),
+      'form': st.sampled_from(['class', 'class', 'method', 'class_methods']),
       # the documented fast path that skips the broadcast-constancy trace
       'cci': st.sampled_from([True, True, False]),
   })
@@ -253,8 +253,12 @@ def scan_vs_loop(case, ctx):
     cci = case.get('cci', True) or bool(broadcast)
     if not cci:
       skw['check_constancy_invariants'] = False
-    SC = nn.scan(Cell, **skw) if form == 'class' else method_form(
-        nn.scan, _cell_body, skw)
+    if form == 'class':
+      SC = nn.scan(Cell, **skw)
+    elif form == 'class_methods':
+      SC = nn.scan(Cell, methods=['__call__'], **skw)
+    else:
+      SC = method_form(nn.scan, _cell_body, skw)
     scanned = SC(spec=spec, dim=D)
   plain = Cell(spec=spec, dim=D)
   args = (jnp.asarray(c0), jnp.asarray(xs)) + (
@@ -617,7 +621,7 @@ def vmap_case():
       'split_params': st.booleans(), 'split_dropout': st.booleans(),
       'mutable': st.lists(st.sampled_from(STATE), max_size=2, unique=True),
       'seed': st.integers(0, 2**16),
-      'form': st.sampled_from(['class', 'class', 'method']),
+      'form': st.sampled_from(['class', 'class', 'method', 'class_methods']),
   })
 
 
@@ -656,8 +660,12 @@ def vmap_vs_per_index(case, ctx):
   with sut('nn.vmap'):
     vkw = dict(variable_axes=axes, split_rngs=split, in_axes=in_axes,
                out_axes=case['out_axis'], axis_size=n)
-    VM = nn.vmap(VCell, **vkw) if form == 'class' else method_form(
-        nn.vmap, _vcell_body, vkw)
+    if form == 'class':
+      VM = nn.vmap(VCell, **vkw)
+    elif form == 'class_methods':
+      VM = nn.vmap(VCell, methods=['__call__'], **vkw)
+    else:
+      VM = method_form(nn.vmap, _vcell_body, vkw)
     mapped = VM(spec=spec, dim=D)
   plain = VCell(spec=spec, dim=D)
   args = (jnp.asarray(xs),) + ((jnp.asarray(b),) if b is not None else ())
